@@ -133,7 +133,8 @@ class MinGenSet():
         if remove_complement_values:
             elements_to_remove = set()
             for val in self.numbers:
-                if total - val in self.numbers and total - val > val:
+                # complements are generated for free only when every element is used at most once
+                if self.max_multiplicity == 1 and total - val in self.numbers and total - val > val:
                     elements_to_remove.add(total - val)
                 if val == total or val == 0:
                     elements_to_remove.add(val)
